@@ -145,6 +145,21 @@ def line_wrap_by_sentence(
                 subsequent_offset=subsequent_indent_len,
                 is_markdown=is_markdown,
             )
+            if (
+                current_column > subsequent_indent_len
+                and len(lines) > 0
+                and wrapped
+                and current_column + length(wrapped[0]) > width
+            ):
+                # The first word does not fit after the short last line, so the sentence
+                # starts on a new line: wrap it from the continuation indent instead.
+                wrapped = wrap_paragraph_lines(
+                    sentence,
+                    width=width,
+                    initial_column=subsequent_indent_len,
+                    subsequent_offset=subsequent_indent_len,
+                    is_markdown=is_markdown,
+                )
             # If last line is shorter than min_line_len, combine with next line.
             # Also handles if the first word doesn't fit.
             if (
